@@ -277,7 +277,7 @@ def gen_history(rng, classes, profile, length):
 def defect_case(rng, fid):
     """short history ending in the input class of finding fid"""
     for _ in range(200):
-        classes = ["dense", "sparse"] if fid not in ("A-17",) else ["dense"]
+        classes = ["dense", "sparse"] if fid != "A-17" else ["dense"]
         profile = "defect:" + fid
         start = gen_start(rng, rng.choice(["sparse", "sparse", "dense"]))
         st = U.start_state(start)
@@ -289,10 +289,10 @@ def defect_case(rng, fid):
             rows = [list(p) for p in rng.sample(sorted(f), min(len(f), 2))] + [[rng.randrange(d) for d in shape]]
             vals = [_val(rng, 0.5) for _ in rows]
             op = ["set", ["subs", rows], ["values", vals]]
-        elif fid == "N-01" and f:
+        elif fid == "C04-N01" and f:
             rows = [list(rng.choice(sorted(f)))]
             op = ["set", ["subs", rows], ["scalar", 0]]
-        elif fid == "N-02":
+        elif fid == "C04-N02":
             row = [rng.randrange(d) for d in shape]
             op = ["set", ["subs", [row, [rng.randrange(d) for d in shape], row]], ["values", [2, 3, 5]]]
         elif fid == "A-14" and f and n < 3:
@@ -307,6 +307,48 @@ def defect_case(rng, fid):
                     break
             else:
                 op = None
+        elif fid == "C04-N03":
+            classes = ["dense"]
+            if rng.random() < 0.5:
+                op = ["set", ["subs", [[rng.randrange(d) for d in shape]]], ["values", [_val(rng, 0.2)]]]
+            else:
+                op = ["set", ["lin", rng.randrange(cells)], ["values", [_val(rng, 0.2)]]]
+        elif fid == "C04-N04":
+            es = []
+            for d in shape:
+                r = rng.random()
+                if d >= 2 and r < 0.4:
+                    es.append(["s", 0, d, 2])
+                elif d >= 2 and r < 0.7:
+                    es.append(["s", -2, None, None])
+                else:
+                    es.append(["s", None, -1, None] if d >= 2 else ["i", 0])
+            key = ["region", es]
+            try:
+                _, asg = U.resolve_set(shape, key, ["scalar", 1])
+                op = ["set", key, ["values", [_val(rng, 0.3) for _ in asg]]]
+            except U.Inadmissible:
+                op = None
+        elif fid == "C04-N05" and f and n < 3:
+            es = [["s", 0, d, None] for d in shape] + [["i", 1]]
+            op = ["set", ["region", es], ["values", [_val(rng, 0.3) for _ in range(cells)]]]
+        elif fid == "C04-N06" and n >= 2:
+            k = rng.randrange(n)
+            es = [["i", -1] if j == k else ["s", 0, d, None] for j, d in enumerate(shape)]
+            grow_row = [d if j == k else 0 for j, d in enumerate(shape)]
+            pre = ["set", ["subs", [grow_row]], ["scalar", _val(rng)]]
+            try:
+                st1, _ = U.spec_step(st, pre)
+                _, asg = U.resolve_set(st1[0], ["region", es], ["scalar", 1])
+            except U.Inadmissible:
+                continue
+            if U.op_triggers(st, pre, classes):
+                continue
+            op = ["set", ["region", es], ["values", [_val(rng, 0.3) for _ in asg]]]
+            ops = [pre, op, ["get", ["linslice", None, None, None]]]
+            if U.op_triggers(st1, op, classes) == ["C04-N06"]:
+                return Case("history", {"start": start, "ops": ops, "classes": classes}, True, {"profile": profile})
+            continue
         elif fid == "A-17":
             op = ["set", ["lin", cells + rng.choice([0, 0, 1, 3])], ["scalar", _val(rng)]]
         if op is None:
@@ -321,8 +363,9 @@ def defect_case(rng, fid):
         except U.Inadmissible:
             continue
         ops = [op]
-        # follow with a read of everything so that the damage is observed
+        # follow with reads (everything linearly, one full subscript) so that the damage is observed
         ops.append(["get", ["linslice", None, None, None]])
+        ops.append(["get", ["region", [["i", 0] for _ in st2[0]]]])
         return Case("history", {"start": start, "ops": ops, "classes": classes}, True, {"profile": profile})
     return None
 
@@ -330,7 +373,7 @@ def defect_case(rng, fid):
 def gen_cases(rng, tier):
     big = tier == "thorough"
     cases = []
-    nj, nd, ns, ndef = (900, 400, 150, 40) if big else (160, 70, 30, 8)
+    nj, nd, ns, ndef = (4000, 1500, 600, 60) if big else (420, 160, 80, 10)
     for _ in range(nj):
         c = gen_history(rng, ["dense", "sparse"], "joint", rng.randint(1, 12))
         if c:
@@ -461,6 +504,12 @@ def coq_check(c, o):
                 return "false"
             if cls == "sparse" and len(s["state"]["vals_shape"]) != 2 and s["state"]["vals"]:
                 return "false"
+            if cls == "sparse" and any(x < 0 for r in s["state"]["subs"] for x in r):
+                return "false"          # negative stored subscripts cannot be written as nat literals: ill-formed anyway
+            if s["out"] and s["out"][0] == "sparse" and (any(x < 0 for r in s["out"][2] for x in r) or not _ints(s["out"][3])):
+                return "false"
+            if s["out"] and s["out"][0] == "dense" and not _ints(s["out"][2]):
+                return "false"
             # a deliberately malformed request must be REJECTED by pyttb itself (AssertionError), not crash inside numpy
             if a.get("malformed") and s["exc"] and not s["exc"].startswith("AssertionError"):
                 return "false"
@@ -566,6 +615,18 @@ def first_failure(args, obs):
     return best
 
 
+def _all_admissible(args):
+    if args.get("malformed"):
+        return True
+    st = U.start_state(args["start"])
+    try:
+        for op in args["ops"]:
+            st, _ = U.spec_step(st, op)
+    except U.Inadmissible:
+        return False
+    return True
+
+
 def shrink(args, fail):
     """minimal failing prefix, then greedy removal of earlier operations (re-running pyttb)"""
     import numpy as np
@@ -583,7 +644,7 @@ def shrink(args, fail):
             data = [den[1].get(tuple(p), 0) for p in tgen.all_subs(den[0])]
             subs, vals = (prev["subs"], prev["vals"]) if cls == "sparse" else tgen.dense_to_sparse(den[0], data)
             cand = dict(cur, start={"shape": list(den[0]), "data": data, "subs": subs, "vals": vals}, ops=[cur["ops"][-1]])
-            ff = first_failure(cand, {cls: run_class(ttb, np, cls, cand)})
+            ff = first_failure(cand, {cls: run_class(ttb, np, cls, cand)}) if _all_admissible(cand) else None
             if ff is not None:
                 return cand, ff
     changed = True
@@ -593,7 +654,7 @@ def shrink(args, fail):
             cand = dict(cur, ops=cur["ops"][:k] + cur["ops"][k + 1:])
             try:
                 ob = {cls: run_class(ttb, np, cls, cand)}
-                ff = first_failure(cand, ob)
+                ff = first_failure(cand, ob) if _all_admissible(cand) else None
             except Exception:   # noqa: BLE001
                 ff = None
             if ff is not None and ff[1] == len(cand["ops"]) - 1:
@@ -634,13 +695,22 @@ _S23 = {"shape": [2, 3], "data": [2, 0, 0, 1, 3, 0], "subs": [[1, 1], [0, 0], [0
 WITNESS_ARGS = {
     "A-13": {"start": _S23, "classes": ["sparse"],
              "ops": [["set", ["subs", [[0, 0], [1, 1], [1, 2]]], ["values", [4, 0, 7]]]]},
-    "N-01": {"start": _S23, "classes": ["sparse"], "ops": [["set", ["subs", [[0, 0]]], ["scalar", 0]]]},
-    "N-02": {"start": _S23, "classes": ["sparse"],
+    "C04-N01": {"start": _S23, "classes": ["sparse"], "ops": [["set", ["subs", [[0, 0]]], ["scalar", 0]]]},
+    "C04-N02": {"start": _S23, "classes": ["sparse"],
              "ops": [["set", ["subs", [[1, 0], [1, 0]]], ["values", [5, 7]]], ["get", ["region", [["i", 1], ["i", 0]]]]]},
     "A-14": {"start": _S23, "classes": ["sparse"], "ops": [["set", ["subs", [[0, 0, 1]]], ["scalar", 3]]]},
     "A-15": {"start": {"shape": [1, 3], "data": [1, 2, 3], "subs": [[0, 0], [0, 1], [0, 2]], "vals": [1, 2, 3]},
              "classes": ["dense"], "ops": [["set", ["region", [["s", None, None, None], ["i", 1]]], ["scalar", 9]]]},
     "A-16": {"start": _S23, "classes": ["dense"], "ops": [["get", ["region", [["l", [0, 1]], ["l", [0, 2]]]]]]},
+    "C04-N03": {"start": _S23, "classes": ["dense"], "ops": [["set", ["subs", [[1, 0]]], ["values", [5]]]]},
+    "C04-N04": {"start": _S23, "classes": ["sparse"],
+                "ops": [["set", ["region", [["i", 0], ["s", 0, 3, 2]]], ["values", [7, 8]]]]},
+    "C04-N05": {"start": _S23, "classes": ["sparse"],
+                "ops": [["set", ["region", [["s", 0, 2, None], ["i", 0], ["i", 1]]], ["values", [7, 8]]],
+                        ["get", ["region", [["i", 0], ["i", 0], ["i", 0]]]]]},
+    "C04-N06": {"start": _S23, "classes": ["sparse"],
+                "ops": [["set", ["subs", [[2, 0]]], ["scalar", 4]],
+                        ["set", ["region", [["i", -1], ["s", 0, 2, None]]], ["values", [7, 8]]]]},
     "A-17": {"start": _S23, "classes": ["dense"], "malformed": True, "ops": [["set", ["lin", 6], ["scalar", 9]]]},
 }
 WITNESSES = {fid: _witness(a) for fid, a in WITNESS_ARGS.items()}
